@@ -463,6 +463,25 @@ def directed_boundary(ctx, txns, quick: bool):
         yield [("segments5", seg)], run_case(ctx, txns, segment_chooser(seg), 0, jumps=[GRACE - 100, 250])
 
 
+def directed_long_open(ctx, txns, quick: bool):
+    """A transaction that stays open for a long time (700 s: far longer than the 10 min grace period, far shorter than the
+    24 h abandonment window) before the collection starts: its marker is old but NOT abandoned, its file is older than
+    the grace period and unreferenced -- the marker is all that protects it."""
+    big = 600_000
+    probe = run_case(ctx, txns, segment_chooser([("A0", 10**6), ("K", 10**6), ("G", 10**6)]), 0, grace=big, jumps=[700_000, 0])
+    a0 = [e for e in probe["log"] if e["actor"] == "A0"]
+    dw = next((n for n, e in enumerate(a0) if e["op"] == "DataW"), len(a0) - 1)
+    upto = 1 + sum(1 for e in a0[:dw + 1] if yield_filter(e["op"], e["path"], e["phase"]))
+    na = sum(1 for a in probe["schedule"] if a == "A0")
+    ng = sum(1 for a in probe["schedule"] if a == "G")
+    combos = [(i, k) for i in range(upto, na) for k in (ng, max(1, ng // 2), 3)]
+    if quick and len(combos) > 18:
+        combos = ctx.rng.sample(combos, 18)
+    for i, k in combos:
+        seg = [("A0", i), ("K", 2), ("G", k), ("A0", 10**6), ("G", 10**6), ("K", 10**6)]
+        yield [("segments6", seg)], run_case(ctx, txns, segment_chooser(seg), 0, grace=big, jumps=[700_000, 0])
+
+
 TXSETS = [
     [{"kind": "append", "rows": [{"x": 100}]}],
     [{"kind": "append", "rows": [{"x": 100}]}, {"kind": "rollback", "rows": [{"x": 200}]}],
@@ -493,6 +512,7 @@ def run(ctx) -> None:
             runs += list(directed_delayed_flip(ctx, txns, quick))
             runs += list(directed_long_run(ctx, txns, quick))
             runs += list(directed_boundary(ctx, txns, quick))
+            runs += list(directed_long_open(ctx, txns, quick))
         for k in range(10 if quick else 200):
             seed = ctx.rng.randrange(1 << 30)
             runs.append(([("random", seed)], run_case(ctx, txns, lambda sc, seed=seed: S.random_chooser(_r.Random(seed), 0.4), 5000)))
@@ -537,7 +557,9 @@ def replay(ctx, payload) -> int:
         print("replay: no concrete case")
         return 2
     dev = c.get("deviations", [])
-    if dev and dev[0][0] == "segments5":
+    if dev and dev[0][0] == "segments6":
+        out = run_case(ctx, c["txns"], segment_chooser([(a, n) for a, n in dev[0][1]]), 0, grace=600_000, jumps=[700_000, 0])
+    elif dev and dev[0][0] == "segments5":
         out = run_case(ctx, c["txns"], segment_chooser([(a, n) for a, n in dev[0][1]]), 0, jumps=[GRACE - 100, 250])
     elif dev and dev[0][0] == "segments4":
         out = run_case(ctx, c["txns"], segment_chooser([(a, n) for a, n in dev[0][1]]), 100_000, grace=600_000)
